@@ -108,7 +108,10 @@ type PipeCfg struct {
 	Parallelism int
 	// cluster target
 	ClusterAddrs []string
-	NoRestore    bool // snapshot replay by native commands instead of RESTORE
+	// NoRedirectFollow: the operator has switched the cluster client's following of MOVED / ASK answers off
+	// (clusterOptions.handleMoveErr / handleAskErr: false): a redirect is an error the replay has to deal with
+	NoRedirectFollow bool
+	NoRestore        bool // snapshot replay by native commands instead of RESTORE
 	// the tool's whole start path: a process start runs syncer.newOutput's checkpoint.UpdateCheckpoint (index entry,
 	// "none yet" marker with a modification time) before StartPoint; AfterFullSync: the stream follows a full sync,
 	// which ended with checkpoint.SetCheckpoint(stream base) on a fresh connection (database 0, with modification time)
@@ -219,7 +222,7 @@ func (c PipeCfg) outputConfig(runID, cpName string) syncer.RedisOutputConfig {
 		oc.Redis.Addresses = c.ClusterAddrs
 		oc.Redis.Type = config.RedisTypeCluster
 		oc.Redis.Otype = config.RedisTypeCluster
-		oc.Redis.ClusterOptions = &config.RedisClusterOptions{HandleMoveErr: true, HandleAskErr: true}
+		oc.Redis.ClusterOptions = &config.RedisClusterOptions{HandleMoveErr: !c.NoRedirectFollow, HandleAskErr: !c.NoRedirectFollow}
 		oc.Redis.KeepAlive = 8
 		oc.Redis.AliveTime = time.Minute
 	}
@@ -261,8 +264,8 @@ type incarnation struct {
 	spErr    error
 	phase    int // 0 starting, 1 sending, 2 ended
 	sendErr  error
-	wasReset bool // the target dropped this incarnation's connections (fault target_reset_reachable)
-	refused  bool // the target, still loading its dataset, refused a request of this incarnation's start (fault target_loading)
+	wasReset bool  // the target dropped this incarnation's connections (fault target_reset_reachable)
+	refused  bool  // the target, still loading its dataset, refused a request of this incarnation's start (fault target_loading)
 	startOff int64 // offset the input stub resumed the stream at
 	startIdx int   // first item fed to this incarnation
 	startDB  int   // DB returned by StartPoint
